@@ -284,7 +284,8 @@ func idMatches(reqRaw, reqKind, respRaw string) bool {
 	case "null", "absent":
 		return respRaw == "null"
 	case "invalid":
-		return respRaw == "null" || semEq(reqRaw, respRaw)
+		// an id that is neither string nor number cannot be determined: JSON-RPC 2.0 requires null
+		return respRaw == "null"
 	}
 	return false
 }
